@@ -285,6 +285,16 @@ func crashPoint(c *drv.Ctx, bin string, cs *census, name, mode string, n int64, 
 	if wd != nil && done >= 0 {
 		wd.W, wd.C.W = w2, w2
 		got, err := wd.SnapshotH(nil, cs.hints)
+		if err != nil && strings.Contains(err.Error(), drv.ErrWatchdog.Error()) {
+			// a read outlived the wall-clock watchdog: a verdict only if the goroutine dump shows it can never return
+			if wedged, where := drv.Wedged(w2.Stderr()); wedged {
+				witness["stderr_file"] = c.SaveText(fmt.Sprintf("stderr-%s-%s%d.txt", name, mode, n), w2.Stderr())
+				c.Violation("read-never-answered-after-recovery:"+opk, fmt.Sprintf("after crash %s:%d during %q a read of the recovered server is never answered (parked in %s with nobody left to wake it): %v", mode, n, desc, where, err), witness)
+			} else {
+				c.Inconclusive(fmt.Sprintf("crash %s:%d: a read of the recovered server outlived the watchdog while the process was still busy: %v", mode, n, err))
+			}
+			return nil
+		}
 		if err != nil {
 			if p := c.SaveText(fmt.Sprintf("stderr-%s-%s%d.txt", name, mode, n), w2.Stderr()); p != "" {
 				witness["stderr_file"] = p
